@@ -90,4 +90,15 @@ theorem geoClip_inside (chromSizes : List Int) (rows : List (Nat × Int × Int))
   simp only [Gen.C08.geoClipStart, Gen.C08.geoClipStop]
   omega
 
+/-- clipping and extension are idempotent: a second application changes nothing -/
+theorem clip_extend_idem (fwd : Bool) (start stop len size : Int) (h0 : 0 ≤ size) :
+    (clipK (clipK start stop size).1 (clipK start stop size).2 size = clipK start stop size) ∧
+    (extendK fwd (extendK fwd start stop len size).1 (extendK fwd start stop len size).2 len size = extendK fwd start stop len size) := by
+  simp only [clipK, extendK]
+  constructor
+  · apply Prod.ext <;> simp only <;> omega
+  · cases fwd
+    · simp only [Bool.false_eq_true, ↓reduceIte]
+    · simp only [↓reduceIte]
+
 end C08
